@@ -218,6 +218,13 @@ def corpus():
         mk("late-consumer-then-non-toml", [(2, False, "a.toml"), (2, False, "b.toml"), (3, False, "notes.txt"), (0, False, "x.toml~")],
            [("append", 2, False, "a.toml", "", 100, 5), ("append", 2, False, "b.toml", "", 40, 5), ("append", 3, False, "notes.txt", "", 40, 5),
             ("append", 0, False, "x.toml~", "", 20, 5)], delay=400),
+        # a stream of writes that outlasts a busy consumer (it picks every notification up 300 ms late): the writes made after a late pick-up are
+        # announced like any others - the last write is followed by a notification
+        mk("burst-outlasts-busy-consumer", [(2, False, "a.toml"), (3, False, "b.toml")],
+           [("append", 2 + (i % 2), False, "a.toml" if i % 2 == 0 else "b.toml", "", 100 if i == 0 else 5, 3) for i in range(130)], delay=300),
+        mk("write-right-after-late-pickup", [(1, False, "a.toml")],
+           [("append", 1, False, "a.toml", "", 100, 3), ("append", 1, False, "a.toml", "", 60, 3)] +
+           [("append", 1, False, "a.toml", "", 4, 3) for _ in range(70)], delay=300),
         # a watcher that stays alive for 12 s with one write per second (TOML and non-TOML alternating): whatever is driven by uptime
         # (periodic timers) gets a chance to act; every TOML write must still be announced, the others not, and the stream must end
         mk("aged-12s", [(0, False, "a.toml"), (1, False, "notes.txt"), (2, False, "b.toml")],
